@@ -37,6 +37,11 @@ def load(path: str | os.PathLike, format: str | None = None) -> _core.Model:
     # Set the base directory for external data to the directory of the ONNX file
     # so that relative paths are resolved correctly.
     _external_data.set_base_dir(model.graph, base_dir)
+    for function in model.functions.values():
+        # External tensors in function bodies (e.g. Constant attributes) need the
+        # base directory too; without it they resolve against the current working
+        # directory and are not subject to the path containment checks
+        _external_data.set_base_dir(function.graph, base_dir)
     return model
 
 
